@@ -191,6 +191,160 @@ def run_list_optimal(p):
             'nan_objective_reported': nan_reported, 'reported_but_not_considered': not_considered, 'reproduced': rep}
 
 
+# ------------------------------------------------------------------------------------------ xla_pareto
+def run_xla(p):
+    from vizier._src.jax import xla_pareto
+    fn = p.get('fn', 'is_frontier')
+    P = arr(p['points'])
+    if fn == 'is_frontier':
+        r = call(lambda: tolist(xla_pareto.is_frontier(P, num_shards=int(p.get('num_shards', 10)))))
+        exp = spec_optimal(P.tolist())
+    elif fn == 'JaxParetoOptimalAlgorithm.is_pareto_optimal':
+        r = call(lambda: tolist(xla_pareto.JaxParetoOptimalAlgorithm().is_pareto_optimal(P)))
+        exp = spec_optimal(P.tolist())
+    elif fn == 'pareto_rank':
+        r = call(lambda: [int(x) for x in tolist(xla_pareto.pareto_rank(P))])
+        exp = spec_rank(P.tolist())
+    elif fn == '_is_pareto_optimal_against':
+        A = arr(p['against'], P.shape[1]).reshape(-1, P.shape[1])
+        r = call(lambda: tolist(xla_pareto._is_pareto_optimal_against(P, A, strict=bool(p['strict']))))
+        exp = spec_against(P.tolist(), A.tolist(), bool(p['strict']))
+    else:
+        return {'error': 'unknown xla function %s' % fn, 'reproduced': False}
+    return {'fn': fn, 'got': r, 'expected': exp, 'reproduced': r.get('value') != exp}
+
+
+# ------------------------------------------------------------------------------------------ exhaustive small scopes (bounded stand-ins)
+def point_sets(n_max, d_max, values):
+    for d in range(1, d_max + 1):
+        rows = list(itertools.product(values, repeat=d))
+        for n in range(0, n_max + 1):
+            for ps in itertools.product(rows, repeat=n):
+                yield n, d, [list(map(float, r)) for r in ps]
+
+
+def has_tie0(ps):
+    xs = [r[0] for r in ps]
+    return len(set(xs)) < len(xs)
+
+
+def run_enum_fast(p):
+    """all point sets with n <= n_max, d <= d_max over `values`, thresholds 1..t_max, on the REAL FastParetoOptimalAlgorithm;
+    is_pareto_optimal_against additionally against every `against` set with m <= m_max rows."""
+    n_max, d_max, t_max, m_max = p.get('n_max', 3), p.get('d_max', 2), p.get('t_max', 3), p.get('m_max', 2)
+    values = p.get('values', [0, 1, 2])
+    po = pareto()
+    checked = {'optimal': 0, 'against': 0}
+    bad_opt_tie, bad_opt_other, bad_against = [], [], []
+    for n, d, ps in point_sets(n_max, d_max, values):
+        if n == 0:
+            continue
+        P = np.array(ps, dtype=float).reshape(n, d)
+        exp = spec_optimal(ps)
+        for t in range(1, t_max + 1):
+            algo = po.FastParetoOptimalAlgorithm(po.NaiveParetoOptimalAlgorithm(), recursive_threshold=t)
+            got = call(lambda: tolist(algo.is_pareto_optimal(P)))
+            checked['optimal'] += 1
+            if got.get('value') != exp:
+                (bad_opt_tie if has_tie0(ps) else bad_opt_other).append({'points': ps, 'threshold': t, 'got': got, 'expected': exp})
+    rows_by_d = {d: list(itertools.product(values, repeat=d)) for d in range(1, d_max + 1)}
+    for n, d, ps in point_sets(min(n_max, p.get('n_max_against', 3)), d_max, values):
+        if n == 0:
+            continue
+        P = np.array(ps, dtype=float).reshape(n, d)
+        for m in range(1, m_max + 1):
+            for As in itertools.product(rows_by_d[d], repeat=m):
+                A = np.array(As, dtype=float).reshape(m, d)
+                for strict in (True, False):
+                    exp = spec_against(ps, [list(a) for a in As], strict)
+                    for t in range(1, t_max + 1):
+                        algo = po.FastParetoOptimalAlgorithm(po.NaiveParetoOptimalAlgorithm(), recursive_threshold=t)
+                        got = call(lambda: tolist(algo.is_pareto_optimal_against(P, A, strict=strict)))
+                        checked['against'] += 1
+                        if got.get('value') != exp and len(bad_against) < 5:
+                            bad_against.append({'points': ps, 'against': [list(a) for a in As], 'strict': strict, 'threshold': t, 'got': got, 'expected': exp})
+    return {'checked': checked, 'optimal_failures_with_tie_in_coordinate_0': len(bad_opt_tie), 'example_tie': bad_opt_tie[:2],
+            'optimal_failures_without_tie': bad_opt_other[:5], 'against_failures': bad_against,
+            'reproduced': bool(bad_opt_other or bad_against)}
+
+
+def run_enum_xla(p):
+    from vizier._src.jax import xla_pareto
+    n_max, d_max, values = p.get('n_max', 3), p.get('d_max', 2), p.get('values', [0, 1, 2])
+    shards = p.get('shards', [1, 2, 3, 4, 10])
+    bad = {k: [] for k in shards}
+    checked = 0
+    for n, d, ps in point_sets(n_max, d_max, values):
+        if n == 0:
+            continue
+        P = np.array(ps, dtype=float).reshape(n, d)
+        exp = spec_optimal(ps)
+        for k in shards:
+            got = call(lambda: tolist(xla_pareto.is_frontier(P, num_shards=k)))
+            checked += 1
+            if got.get('value') != exp and len(bad[k]) < 3:
+                bad[k].append({'points': ps, 'got': got, 'expected': exp})
+    return {'checked': checked, 'failures_by_num_shards': {str(k): v for k, v in bad.items()},
+            'reproduced': any(v for k, v in bad.items() if k != 1)}
+
+
+# ------------------------------------------------------------------------------------------ InRamPolicySupporter.GetBestTrials
+def best_trials_once(goals, trials):
+    """goals: list of 'MAXIMIZE'|'MINIMIZE'; trials: list of None (infeasible) | list of values.  Returns (got ids, spec ids)."""
+    from vizier import pyvizier as vz
+    from vizier._src.pythia import local_policy_supporters as lps
+    problem = vz.ProblemStatement()
+    problem.search_space.root.add_float_param('x', 0.0, 1.0)
+    for i, g in enumerate(goals):
+        problem.metric_information.append(vz.MetricInformation(name='m%d' % i, goal=getattr(vz.ObjectiveMetricGoal, g)))
+    sup = lps.InRamPolicySupporter(problem)
+    ts = []
+    for v in trials:
+        t = vz.Trial(parameters={'x': 0.5})
+        if v is None:
+            t.complete(vz.Measurement(), infeasibility_reason='replay')
+        else:
+            t.complete(vz.Measurement(metrics={'m%d' % i: float(x) for i, x in enumerate(v)}))
+        ts.append(t)
+    sup.AddTrials(ts)
+    got = call(lambda: [t.id for t in sup.GetBestTrials()])
+    ids = [t.id for t in sup.trials]
+    vecs = {ids[i]: [(-1.0 if g == 'MINIMIZE' else 1.0) * float(x) for g, x in zip(goals, v)] for i, v in enumerate(trials) if v is not None}
+    spec = [i for i in ids if i in vecs and not any(dom(vecs[j], vecs[i]) for j in vecs)]
+    return got, spec, ids, vecs
+
+
+def run_best_trials(p):
+    if 'trials' in p:
+        got, spec, ids, vecs = best_trials_once(p['goals'], p['trials'])
+        return {'got': got, 'expected': spec, 'reproduced': got.get('value') != spec}
+    n_max, values = p.get('n_max', 3), p.get('values', [0, 1])
+    configs = [['MAXIMIZE'], ['MINIMIZE'], ['MAXIMIZE', 'MINIMIZE']]
+    checked, tie, infeasible_only, multi_empty, other = 0, [], [], [], []
+    for goals in configs:
+        cells = [None] + [list(v) for v in itertools.product(values, repeat=len(goals))]
+        for n in range(1, n_max + 1):
+            for trials in itertools.product(cells, repeat=n):
+                got, spec, ids, vecs = best_trials_once(goals, list(trials))
+                checked += 1
+                g = got.get('value')
+                if g == spec or (g is not None and sorted(g) == sorted(spec) and len(goals) > 1):
+                    continue
+                rec = {'goals': goals, 'trials': list(trials), 'got': got, 'expected': spec}
+                if g is not None and not vecs and len(g) >= 1:
+                    infeasible_only.append(rec)          # nothing feasible, yet an (infeasible) trial is returned
+                elif g is not None and len(goals) == 1 and len(spec) > 1 and len(g) == 1 and g[0] in spec:
+                    tie.append(rec)                      # one of several tied best trials
+                elif g == [] and len(goals) > 1 and any(t is None for t in trials) and spec:
+                    multi_empty.append(rec)              # an infeasible trial (NaN labels) empties the Pareto set
+                else:
+                    other.append(rec)
+    return {'checked': checked, 'single_objective_tie_returns_one': len(tie), 'example_tie': tie[:1],
+            'infeasible_only_returns_infeasible': len(infeasible_only), 'example_infeasible_only': infeasible_only[:1],
+            'multi_objective_with_infeasible_returns_nothing': len(multi_empty), 'example_multi_objective': multi_empty[:1],
+            'other_failures': other[:5], 'reproduced': bool(other)}
+
+
 # ------------------------------------------------------------------------------------------ recorded witnesses (known_findings.d/C11.json)
 def run_witness(name):
     if name == 'nan_objective':
@@ -199,6 +353,14 @@ def run_witness(name):
                                          {'succeeded': True, 'metrics': [{'id': 'a', 'value': 1.0}]}]})
     elif name == 'fast_tie':
         r = run_fast_optimal({'points': [[1, 5], [1, 3]], 'threshold': 1})
+    elif name == 'best_trials_tie':
+        r = run_best_trials({'goals': ['MAXIMIZE'], 'trials': [[1.0], [1.0], [0.0]]})
+    elif name == 'best_trials_infeasible_only':
+        r = run_best_trials({'goals': ['MAXIMIZE'], 'trials': [None]})
+    elif name == 'best_trials_multi_infeasible':
+        r = run_best_trials({'goals': ['MAXIMIZE', 'MINIMIZE'], 'trials': [None, [0.0, 0.0]]})
+    elif name == 'frontier_one_shard':
+        r = run_xla({'fn': 'is_frontier', 'points': [[1, 5], [1, 3]], 'num_shards': 1})
     else:
         return {'error': 'unknown witness %s' % name, 'reproduced': False}
     r['witness'] = name
